@@ -110,6 +110,38 @@ PROPS = {
         "assumptions": ["page sizes >= 1 for walks"],
         "timeout": {"quick": 900, "thorough": 3000},
     },
+    "C06": {
+        "title": "Completing a multipart upload stores exactly the listed parts, once, or nothing",
+        "harness": "c06",
+        "model": "Model/Uploader.v (create_upload, upload_part, complete_upload with check_parts / ints_sorted, abort_upload) over Model/Mem.v",
+        "rule": "per backend: seeded histories of 30 (quick) / 40 (thorough) operations: initiate (with and without metadata), "
+                "upload-part with part numbers in {1..4, 7, 9999, 10000, 10001, 0, -1} incl. re-uploads and empty bodies, complete with "
+                "the full ascending list / a subset / a permutation / an unknown number / a wrong ETag / a duplicate / unquoted ETags / "
+                "an empty list, abort, get, list-parts, list-uploads over two keys with several simultaneous uploads; final probe "
+                "GET/HEAD of every key and listing of every pending upload. distinct_nontrivial = distinct successful completes.",
+        "explanation": "Theorems over the uploader model: an accepted complete stores exactly the concatenation of the latest upload of "
+                       "each listed part with the composite ETag and the initiation metadata and removes the upload; a rejected "
+                       "complete and an abort leave object and pending upload state as required. Tie: every response (status, code, "
+                       "part ETag, composite ETag, later GET body/ETag/metadata, listings) from the Go handlers vs the extracted model, "
+                       "with an independent MD5 (OCaml Digest).",
+        "assumptions": ["upload ids are compared through a bijection built on first sight"],
+        "timeout": {"quick": 900, "thorough": 3000},
+    },
+    "C14": {
+        "title": "Multipart bookkeeping listings are exact and page completely",
+        "harness": "c14",
+        "model": "Model/Uploader.v list_parts, list_uploads (scan_uploads, take_uploads, next_entry)",
+        "rule": "memory backend: seeded histories (initiate over up to 6 keys incl. keys sharing 'b/' and the key 'b', upload-part with "
+                "gaps {1,2,3,5,8,13,40}, abort, complete); then for every pending upload ListParts walks for every max-parts 1..n+1 "
+                "following NextPartNumberMarker and single pages from markers {0,1,2,4,13,14,41,42,10^6}; ListMultipartUploads walks "
+                "for every max-uploads 1..n+1 over six prefix/delimiter combinations following (NextKeyMarker, NextUploadIdMarker); "
+                "each walk is checked by a model-independent oracle (bound, every entry once, concatenation = unpaginated, each common "
+                "prefix once) and page by page against the model. distinct_nontrivial = distinct walks.",
+        "explanation": "Theorems over the uploader model's listings (exactness w.r.t. the pending uploads / held parts, paging). Tie: "
+                       "every page from the Go handlers vs the extracted model plus the walk oracle on the implementation's pages.",
+        "assumptions": [],
+        "timeout": {"quick": 900, "thorough": 3000},
+    },
 }
 
 # properties whose check is not built yet are listed so the manifest stays honest
